@@ -46,17 +46,20 @@ def failing_expr() -> str:
             "| b :: r => if b then go (S i) r else i :: go (S i) r end) O cases).\n")
 
 
-def dim_positions(prob, k: str) -> list[tuple[int, int]]:
-    """(tensor parameter index, dimension position) pairs that carry index variable k; the
-    parameters of a kernel are the tensors of the problem in order (output first)"""
+def dim_positions(prob, k: str) -> list[tuple[int, int]] | None:
+    """(tensor parameter index, dimension position) pairs that carry index variable k, over ALL
+    occurrences of every tensor; the parameters of a kernel are the tensors of the problem in order
+    (output first).  None when one of those physical dimensions also carries a DIFFERENT index
+    variable (a tensor used twice with different index lists, e.g. b(i,j) * b(k,l)): enlarging
+    "the dimension of k" is then not a well-defined experiment and the pair is not certified."""
     a = prob.assignment
     from tensora.expression import ast as X
 
-    occ = {a.target.name: a.target.indexes}
+    occs: dict[str, list[tuple[str, ...]]] = {a.target.name: [a.target.indexes]}
 
     def walk(e):
         if isinstance(e, X.Tensor):
-            occ.setdefault(e.name, e.indexes)
+            occs.setdefault(e.name, []).append(e.indexes)
         for f in ("left", "right"):
             if hasattr(e, f):
                 walk(getattr(e, f))
@@ -64,8 +67,14 @@ def dim_positions(prob, k: str) -> list[tuple[int, int]]:
     walk(a.expression)
     res = []
     for pi, name in enumerate(prob.formats.keys()):
-        for pos, ix in enumerate(occ[name]):
-            if ix == k:
+        carried: dict[int, set[str]] = {}
+        for idxs in occs[name]:
+            for pos, ix in enumerate(idxs):
+                carried.setdefault(pos, set()).add(ix)
+        for pos, names in carried.items():
+            if k in names:
+                if len(names) > 1:
+                    return None
                 res.append((pi, pos))
     return res
 
@@ -158,6 +167,8 @@ def main():
                 if not condition(a, fm, k):
                     continue
                 ds = dim_positions(prob, k)
+                if ds is None:
+                    continue
                 term = "[" + "; ".join(f"({pi}%nat, {pos})" for pi, pos in ds) + "]"
                 for kind in KINDS:
                     cases.append(f"dim_unread_cert {names[kind]} {term}")
